@@ -1,0 +1,132 @@
+//! Hooks for the linker-script expression parser (`linker_script::parse_expression`) and the
+//! ASSERT evaluator (`expression_eval::evaluate_expression`). Adds no behaviour.
+
+use crate::linker_script::Expression;
+
+fn name(bytes: &[u8]) -> String {
+    String::from_utf8_lossy(bytes).into_owned()
+}
+
+fn sexp(e: &Expression<'_>, out: &mut String) {
+    use Expression as E;
+    let bin = |op: &str, l: &Expression<'_>, r: &Expression<'_>, out: &mut String| {
+        out.push('(');
+        out.push_str(op);
+        out.push(' ');
+        sexp(l, out);
+        out.push(' ');
+        sexp(r, out);
+        out.push(')');
+    };
+    match e {
+        E::Number(n) => out.push_str(&format!("0x{n:x}")),
+        E::Symbol(s) => out.push_str(&format!("(sym {})", name(s))),
+        E::LocationCounter => out.push_str("dot"),
+        E::Add(l, r) => bin("add", l, r, out),
+        E::Subtract(l, r) => bin("sub", l, r, out),
+        E::Multiply(l, r) => bin("mul", l, r, out),
+        E::Divide(l, r) => bin("div", l, r, out),
+        E::LessThan(l, r) => bin("lt", l, r, out),
+        E::GreaterThan(l, r) => bin("gt", l, r, out),
+        E::LessEqual(l, r) => bin("le", l, r, out),
+        E::GreaterEqual(l, r) => bin("ge", l, r, out),
+        E::Equal(l, r) => bin("eq", l, r, out),
+        E::NotEqual(l, r) => bin("ne", l, r, out),
+        E::Sizeof(s) => out.push_str(&format!("(sizeof {})", name(s))),
+        E::Alignof(s) => out.push_str(&format!("(alignof {})", name(s))),
+        E::Origin(s) => out.push_str(&format!("(origin {})", name(s))),
+        E::Length(s) => out.push_str(&format!("(length {})", name(s))),
+        E::Addr(s) => out.push_str(&format!("(addr {})", name(s))),
+        E::Loadaddr(s) => out.push_str(&format!("(loadaddr {})", name(s))),
+        E::Align(x) => {
+            out.push_str("(align ");
+            sexp(x, out);
+            out.push(')');
+        }
+        E::Min(l, r) => bin("min", l, r, out),
+        E::Max(l, r) => bin("max", l, r, out),
+        E::BitwiseAnd(l, r) => bin("band", l, r, out),
+        E::BitwiseOr(l, r) => bin("bor", l, r, out),
+        E::BitwiseXor(l, r) => bin("bxor", l, r, out),
+        E::LeftShift(l, r) => bin("shl", l, r, out),
+        E::RightShift(l, r) => bin("shr", l, r, out),
+        E::LogicalAnd(l, r) => bin("land", l, r, out),
+        E::LogicalOr(l, r) => bin("lor", l, r, out),
+        E::LogicalNot(x) => {
+            out.push_str("(lnot ");
+            sexp(x, out);
+            out.push(')');
+        }
+        E::BitwiseNot(x) => {
+            out.push_str("(bnot ");
+            sexp(x, out);
+            out.push(')');
+        }
+        E::Negate(x) => {
+            out.push_str("(neg ");
+            sexp(x, out);
+            out.push(')');
+        }
+    }
+}
+
+/// True if the tree contains a node whose value depends on the layout context (sections, memory
+/// regions); those are outside the literal fragment the hooks evaluate.
+fn needs_context(e: &Expression<'_>) -> bool {
+    use Expression as E;
+    match e {
+        E::Number(_) | E::Symbol(_) | E::LocationCounter => false,
+        E::Sizeof(_) | E::Alignof(_) | E::Origin(_) | E::Length(_) | E::Addr(_) | E::Loadaddr(_) => {
+            true
+        }
+        E::Align(x) | E::LogicalNot(x) | E::BitwiseNot(x) | E::Negate(x) => needs_context(x),
+        E::Add(l, r)
+        | E::Subtract(l, r)
+        | E::Multiply(l, r)
+        | E::Divide(l, r)
+        | E::LessThan(l, r)
+        | E::GreaterThan(l, r)
+        | E::LessEqual(l, r)
+        | E::GreaterEqual(l, r)
+        | E::Equal(l, r)
+        | E::NotEqual(l, r)
+        | E::Min(l, r)
+        | E::Max(l, r)
+        | E::BitwiseAnd(l, r)
+        | E::BitwiseOr(l, r)
+        | E::BitwiseXor(l, r)
+        | E::LeftShift(l, r)
+        | E::RightShift(l, r)
+        | E::LogicalAnd(l, r)
+        | E::LogicalOr(l, r) => needs_context(l) || needs_context(r),
+    }
+}
+
+/// Parses `text` as one complete expression with the real `parse_expression` (the whole input must
+/// be consumed) and prints the tree as an s-expression. `None` on a parse error.
+pub fn expr_parse_sexp(text: &[u8]) -> Option<String> {
+    let e = crate::linker_script::verif_parse_expression(text)?;
+    let mut out = String::new();
+    sexp(&e, &mut out);
+    Some(out)
+}
+
+/// Parses with the real parser, then evaluates with the real `evaluate_expression` (empty layout
+/// context). `Ok(value)`, or `Err(class)`: `parse`, `context` (tree refers to sections / memory
+/// regions), `div0`, `align0`, `other`.
+pub fn expr_eval(text: &[u8]) -> Result<u64, &'static str> {
+    let e = crate::linker_script::verif_parse_expression(text).ok_or("parse")?;
+    if needs_context(&e) {
+        return Err("context");
+    }
+    crate::expression_eval::verif_evaluate_expression(&e).map_err(|err| {
+        let msg = format!("{err:?}");
+        if msg.contains("Division by zero") {
+            "div0"
+        } else if msg.contains("ALIGN(0)") {
+            "align0"
+        } else {
+            "other"
+        }
+    })
+}
